@@ -342,7 +342,13 @@ type writeCase struct {
 	Huge uint `json:"huge_limit"`
 	// ViaString: every other chunk is written with io.WriteString
 	ViaString bool `json:"via_write_string"`
+	// ViaCopy: every third chunk arrives through io.Copy from a plain reader (1) or through the ReadFrom of a
+	// bufio.Writer around the truncating writer (2): both use an io.ReaderFrom of the destination if there is one
+	ViaCopy int `json:"via_copy"`
 }
+
+// onlyReader hides every optional interface of a reader.
+type onlyReader struct{ io.Reader }
 
 var writePattern = []byte("A\u00e9\u20acB\U0001f600\x80C\xbfD\u00e9\u00e9")
 
@@ -381,7 +387,18 @@ func runWrite(c writeCase) (what string, calls int) {
 		orig := bytes.Clone(b)
 		all = append(all, b...)
 		var n int
-		if c.ViaString && i%2 == 1 {
+		if c.ViaCopy != 0 && i%3 == 2 {
+			var n64 int64
+			if c.ViaCopy == 1 {
+				n64, _ = io.Copy(tw, onlyReader{bytes.NewReader(b)})
+			} else {
+				bw := bufio.NewWriterSize(tw, 8)
+				_, _ = bw.ReadFrom(onlyReader{bytes.NewReader(b)})
+				_ = bw.Flush()
+				n64 = int64(len(b)) // what a bufio.Writer reports after an error of its destination is its own business
+			}
+			n = int(n64)
+		} else if c.ViaString && i%2 == 1 {
 			// io.WriteString prefers an io.StringWriter if the writer offers one
 			n, _ = io.WriteString(tw, string(b))
 		} else {
@@ -579,6 +596,34 @@ func TestReader(t *testing.T) {
 	})
 	r.Exhaustive(fmt.Sprintf("LimitReader: stream length 0..%d x limit 0..%d x every sequence of %d caller buffer sizes from %v x every sequence of %d wrapped-reader behaviours from %v", maxStream, maxLimit, nCalls, bufSizes, nCalls, rKindNames))
 	r.Sample(readCase{Stream: 5, Limit: 3, Bufs: []int{2, 8, 1, 3}, Script: []int{rDataErr, rFull, rZero, rFull}})
+	// a source that is idle for a long time - (0, nil) again and again, as a non-blocking source answers - and then
+	// delivers: every empty read passes through as it is, however many there are
+	{
+		var ie int64
+		for _, limit := range []int{1, 4, 50} {
+			for _, idle := range []int{3, 99, 100, 101, 150, 300, 1000} {
+				for _, at := range []int{0, 2} { // idle from the start / after two bytes
+					c := readCase{Stream: 8, Limit: limit}
+					for i := 0; i < at; i++ {
+						c.Script, c.Bufs = append(c.Script, rFull), append(c.Bufs, 1)
+					}
+					for i := 0; i < idle; i++ {
+						c.Script, c.Bufs = append(c.Script, rZero), append(c.Bufs, []int{3, 0, 8}[i%3])
+					}
+					for i := 0; i < 6; i++ {
+						c.Script, c.Bufs = append(c.Script, rFull), append(c.Bufs, 3)
+					}
+					what, calls := runRead(c)
+					ie += int64(calls)
+					if what != "" {
+						r.Violation(fmt.Sprintf("reader-idle:%d:%d:%d", limit, idle, at), fmt.Sprintf("LimitReader(limit %d) over a source that answers (0, nil) %d times in a row after %d bytes and then delivers: %s", limit, idle, at, what), c)
+					}
+				}
+			}
+		}
+		r.Eval(ie)
+		r.Count("reads_from_idle_sources", ie)
+	}
 
 	// wrapped readers that return a negative count now and then
 	{
@@ -853,14 +898,15 @@ func TestWriter(t *testing.T) {
 			}
 			gen.SeqAt(nWKinds, x/nc, c.Script)
 			c.ViaString = i%2 == 1
+			c.ViaCopy = (i / 2) % 3
 			what, calls := runWrite(c)
 			evals += int64(calls)
 			if sum >= c.Limit {
 				nontriv++
 			}
 			if what != "" {
-				cc := writeCase{Limit: c.Limit, Chunks: append([]int{}, c.Chunks...), Script: append([]int{}, c.Script...), ViaString: c.ViaString}
-				r.Violation(fmt.Sprintf("writer:%v", cc), fmt.Sprintf("TruncatedWriter(limit %d), writes of sizes %v, wrapped writer script %v: %s", c.Limit, c.Chunks, c.Script, what), cc)
+				cc := writeCase{Limit: c.Limit, Chunks: append([]int{}, c.Chunks...), Script: append([]int{}, c.Script...), ViaString: c.ViaString, ViaCopy: c.ViaCopy}
+				r.Violation(fmt.Sprintf("writer:%v", cc), fmt.Sprintf("TruncatedWriter(limit %d), writes of sizes %v (io.WriteString for every second: %v; every third through io.Copy / bufio.Writer.ReadFrom: %d), wrapped writer script %v: %s", c.Limit, c.Chunks, c.ViaString, c.ViaCopy, c.Script, what), cc)
 				if r.TooMany() {
 					break
 				}
@@ -876,7 +922,7 @@ func TestWriter(t *testing.T) {
 		ci := make([]int, nCalls)
 		for i := lo; i < hi; i++ {
 			for wr := wrapBytesBuffer; wr < nWraps; wr++ {
-				c := writeCase{Wrapped: wr, Limit: i % (maxLimit + 1), Chunks: make([]int, nCalls), ViaString: (i/(maxLimit+1))%2 == 1}
+				c := writeCase{Wrapped: wr, Limit: i % (maxLimit + 1), Chunks: make([]int, nCalls), ViaString: (i/(maxLimit+1))%2 == 1, ViaCopy: (i / 7) % 3}
 				gen.SeqAt(len(chunkSizes), i/(maxLimit+1), ci)
 				for k, j := range ci {
 					c.Chunks[k] = chunkSizes[j]
